@@ -41,7 +41,7 @@ impl Prop for C11 {
         "C11"
     }
     fn rule(&self) -> String {
-        "cases = one handshake response in 4.1 or 3.20 layout with a random 32-bit (16-bit) capability mask, a user name of arbitrary non-NUL bytes (empty, non-UTF-8, up to 600 bytes, occasionally ~64 KiB), random trailing auth/db/plugin bytes (occasionally ~64 KiB, up to 200 KB, or enough to make the response a multi-fragment message of >= 2^24-1 bytes) and a response sequence id (1 mostly, else 0-255), against a shim with or without a TLS configuration (the SSL bit is only requested when TLS is *not* configured; the configured case is C18) that accepts or rejects with a tagged error, with 0-5 commands already pipelined behind the handshake, under a generated chunk schedule. Oracle: first server packet parses as a protocol-10 greeting (own decoder + mysql_common::HandshakePacket) with PROTOCOL_41 set, the SSL bit set iff TLS is configured, sequence id 0 and flushed before the first read; after_authentication is called exactly once, before any command callback, with exactly the user name sent; accept => OK with id+1 and all pipelined commands served; reject => ERR 1045/28000, run_on returns the very error the shim returned and no command callback runs; SSL requested without configuration => Err and no after_authentication. Non-trivial = non-default mask/user/layout, or pipelined commands with a rejection.".into()
+        "cases = one handshake response in 4.1 or 3.20 layout with a random 32-bit (16-bit) capability mask, a user name of arbitrary non-NUL bytes (empty, non-UTF-8, up to 600 bytes, occasionally ~64 KiB), arbitrary reserved bytes (all zero, MariaDB-style extended capabilities in the last four, or 23 random bytes), random trailing auth/db/plugin bytes (occasionally ~64 KiB, up to 200 KB, or enough to make the response a multi-fragment message of >= 2^24-1 bytes) and a response sequence id (1 mostly, else 0-255), against a shim with or without a TLS configuration (the SSL bit is only requested when TLS is *not* configured; the configured case is C18) that accepts or rejects with a tagged error, with 0-5 commands already pipelined behind the handshake, under a generated chunk schedule. Oracle: first server packet parses as a protocol-10 greeting (own decoder + mysql_common::HandshakePacket) with PROTOCOL_41 set, the SSL bit set iff TLS is configured, sequence id 0 and flushed before the first read; after_authentication is called exactly once, before any command callback, with exactly the user name sent; accept => OK with id+1 and all pipelined commands served; reject => ERR 1045/28000, run_on returns the very error the shim returned and no command callback runs; SSL requested without configuration => Err and no after_authentication. Non-trivial = non-default mask/user/layout, or pipelined commands with a rejection.".into()
     }
     fn cases(&self, tier: Tier) -> u64 {
         tier.pick(400000, 3000000)
@@ -89,7 +89,13 @@ impl Prop for C11 {
             2 => (g.usize_in(65_300, 65_700), 0),
             _ => (g.usize_in(1000, 40_000), g.usize_in(30_000, 200_000)),
         };
-        conv.hs = Handshake { kind, seq: if g.chance(3, 4) { 1 } else { g.byte() }, user_pad, tail_pad };
+        // the reserved bytes of the 4.1 layout are the client's to fill (MariaDB connectors do)
+        let reserved = match g.weighted(&[4, 2, 2]) {
+            0 => vec![],
+            1 => g.bytes(4),
+            _ => g.bytes(23),
+        };
+        conv.hs = Handshake { kind, seq: if g.chance(3, 4) { 1 } else { g.byte() }, user_pad, tail_pad, reserved };
         if g.chance(1, 3) {
             conv.reject_auth = Some(1000 + g.below(1000) as u32);
         }
